@@ -8,6 +8,7 @@ Spec:  `Reach g a b` — `a` is reachable from `b` through parent links (or `a =
 import WrglModel.Model.Queue
 import WrglModel.Spec.Graph
 import WrglModel.Lemmas.C11
+import WrglModel.Lemmas.C11Multi
 import WrglModel.Lemmas.C11Seek
 namespace Wrgl
 
@@ -25,6 +26,16 @@ theorem C11_walk_each_once (g : Graph) (hwf : g.wf = true) (b : Nat)
     (hb : (g.get? b).isSome = true) :
     ∃ l, walk g b = .ok l ∧ l.Nodup ∧ ∀ x, x ∈ l ↔ Reach g x b :=
   walk_correct g hwf b hb
+
+/-- The same from ANY list of start points (repeats allowed: two refs on one commit; `tie` is the
+    unstable initial sort): every ancestor-or-self of some start point exactly once. This is the
+    queue `popHaves` and the negotiation build from all refs. -/
+theorem C11_walk_multi_each_once (g : Graph) (hwf : g.wf = true) (tie : List (Nat × Int) → List (Nat × Int))
+    (htie : ∀ l, (tie l).Perm l ∧ (tie l).Pairwise (fun a b => a.2 ≥ b.2))
+    (sums : List Nat) (hs : ∀ s ∈ sums, (g.get? s).isSome = true) :
+    ∃ q l, queueOf g tie sums = .ok q ∧ walkLoop g (g.length + 2) q [] = .ok l ∧ l.Nodup ∧
+      ∀ x, x ∈ l ↔ ∃ s ∈ sums, Reach g x s :=
+  walkMulti_correct g hwf tie htie sums hs
 
 /-! ## Merge base -/
 
